@@ -6,6 +6,7 @@
    Text is [list N] (code points).  Python ints are [Z] (negative indices wrap as in Python).
    The model mirrors the code as it is after the fix: commits F13-1..F13-5.  No proofs in this file. *)
 From Coq Require Import List ZArith NArith Bool.
+Require Import Pyrefact.Base.
 Import ListNotations.
 Open Scope Z_scope.
 
@@ -368,6 +369,8 @@ Definition ozz_eqb := orange_eqb.
 
 Fixpoint zrange (lo : Z) (n : nat) : list Z :=
   match n with O => [] | S n' => lo :: zrange (lo + 1) n' end.
+Fixpoint nrange (lo : N) (n : nat) : list N :=
+  match n with O => [] | S n' => lo :: nrange (N.succ lo) n' end.
 
 (* small-scope case: everything the implementation computes from one string
      table     = _get_line_start_charnos(s)
@@ -396,7 +399,7 @@ Definition node_obs :=
   (list pos4 * attrs * bool            (* decorators, attributes, is_def *)
    * option range * option range       (* get_charnos(.., False), get_charnos(.., True) *)
    * option (Z * Z)                    (* Match(span False).lineno, col_offset *)
-   * option (nat * nat * pos4))%type.  (* oracle: true start, true end offsets, and ast position *)
+   * option (Z * Z * pos4))%type.      (* oracle: true start, true end offsets, and ast position *)
 
 Definition node_ok (s : text) (o : node_obs) : bool :=
   let '(decs, a, is_def, r0, r1, lc, orc) := o in
@@ -408,7 +411,9 @@ Definition node_ok (s : text) (o : node_obs) : bool :=
      end
   && match orc with
      | None => true
-     | Some (p1, p2, (l, c, el, ec)) =>
+     | Some (z1, z2, (l, c, el, ec)) =>
+         let p1 := Z.to_nat z1 in
+         let p2 := Z.to_nat z2 in
          let '(l1, c1) := tok_pos s p1 in
          let '(l2, c2) := tok_pos s p2 in
          (l1 =? l) && (c1 =? c) && (l2 =? el) && (c2 =? ec)
@@ -444,3 +449,52 @@ Definition api_case_ok (c : api_case) : bool :=
 Definition ign_case := (text * list (range * bool))%type.
 Definition ign_case_ok (c : ign_case) : bool :=
   forallb (fun x => Bool.eqb (has_ignore_comment (fst c) (fst x)) (snd x)) (snd c).
+
+(* ------------------------------------------------------------------------------------------ *)
+(* Exhaustive small-scope enumeration done inside Coq: the model is evaluated on ALL strings of a
+   given length over an alphabet, the observations are folded into 40-bit digests per block of
+   strings (a block = all strings with a given prefix), and the harness compares the digests with
+   those it computed from the implementation's observations, enumerated in the same order.
+   (A block whose digest differs is re-run with explicit [str_case]/[src_case] cases.) *)
+
+Definition dg (h x : Z) : Z := Z.land (h * 33 + x + 64) 1099511627775.
+Definition dg_list (h : Z) (l : list Z) : Z := fold_left dg l h.
+
+Fixpoint all_strings (A : list N) (n : nat) : list text :=
+  match n with
+  | O => [[]]
+  | S n' => flat_map (fun c => map (cons c) (all_strings A n')) A
+  end.
+
+Definition enc_oz (o : option Z) : list Z := match o with Some v => [1; v] | None => [0] end.
+Definition enc_ozz (o : option (Z * Z)) : list Z := match o with Some (a, b) => [1; a; b] | None => [0] end.
+
+Definition str_obs (s : text) : list Z :=
+  let table := line_starts s in
+  let ps := zrange (-1) (length s + 3) in
+  [len table] ++ table ++ [len (str_lines s)] ++ map len (str_lines s)
+  ++ flat_map (fun p => enc_ozz (lineno_col s p)) ps
+  ++ flat_map (fun l => flat_map (fun c => enc_oz (get_charno s l c)) ps) (zrange 0 (length table + 2)).
+
+Definition str_digest (s : text) : Z := dg_list 7 (str_obs s).
+
+Definition block_digests (f : text -> Z) (A : list N) (pfxs : list text) (k : nat) : list Z :=
+  map (fun pfx => dg_list 1 (map (fun t => f (pfx ++ t)) (all_strings A k))) pfxs.
+
+(* get_charnos on a grid of synthetic nodes: variants = (decorators, is_def), attribute grid, both
+   keep_first_indent values; plus the Match line/column of the span start *)
+Definition grid_obs (variants : list (list pos4 * bool)) (agrid : list attrs) (s : text) : list Z :=
+  flat_map (fun v =>
+    flat_map (fun a =>
+      let r0 := get_charnos s (fst v) a (snd v) false in
+      let r1 := get_charnos s (fst v) a (snd v) true in
+      enc_ozz r0 ++ enc_ozz r1
+      ++ match r0 with Some r => enc_ozz (lineno_col s (fst r)) ++ [len (match_string s r)] | None => [] end)
+      agrid) variants.
+
+Definition grid_digest (variants : list (list pos4 * bool)) (agrid : list attrs) (s : text) : Z :=
+  dg_list 7 (grid_obs variants agrid s).
+
+Definition digests_bad (got expected : list Z) : list nat :=
+  if (length got =? length expected)%nat then bad_idx (fun x => fst x =? snd x) (combine got expected)
+  else [length got; length expected; 9999%nat].
